@@ -57,7 +57,10 @@ impl Coll for Types {
         for _ in 0..np + nr { v.push(r.below(3)); }
         v
     }
-    fn add(&mut self, it: &Item) -> usize { let (p, q) = dec_type(it); let id = self.m.types.add(&p, &q); self.note(id) }
+    fn add(&mut self, it: &Item) -> usize { let (p, q) = dec_type(it); let id = self.m.types.add(&p, &q);
+        // every other type gets a debug name (as the name section does after parsing): names are not part of a type's identity
+        if id.index() % 2 == 1 { self.m.types.get_mut(id).name = Some(format!("t{}", id.index())); }
+        self.note(id) }
     fn delete(&mut self, id: usize) { self.m.types.delete(self.ids[id]) }
     fn get(&self, id: usize) -> Item { enc_type(self.m.types.get(self.ids[id])) }
     fn iter(&self) -> Vec<(usize, Item)> { self.m.types.iter().map(|t| (t.id().index(), enc_type(t))).collect() }
